@@ -156,7 +156,7 @@ func fullRange(s ast.Stmt) bool {
 // are not looked at.
 
 var loopExitExemptions = map[string]string{
-	"ipfslog.(*IPFSLog).traverse|for": "the traversal stops at the requested end hash (decided by R-C03.4 / R-C15.5)",
+	"ipfslog.(*IPFSLog).traverse|for":   "the traversal stops at the requested end hash (decided by R-C03.4 / R-C15.5)",
 	"entry.(*Fetcher).processQueue|for": "the dispatcher gives up when no slot can be acquired (context cancelled); the wait for running workers follows (R-C11.1)",
 }
 
